@@ -108,8 +108,11 @@ impl crate::internal::array_builder::ArrayBuilder {
     /// Construct `arrow2` arrays and reset the builder (*requires one of the
     /// `arrow2-*` features*)
     pub fn to_arrow2(&mut self) -> Result<Vec<Box<dyn Array>>> {
-        Ok(self
-            .build_arrays()?
+        let arrays = self.build_arrays()?;
+        for array in &arrays {
+            crate::internal::utils::check_fixed_sizes(array)?;
+        }
+        Ok(arrays
             .into_iter()
             .map(Box::<dyn Array>::try_from)
             .collect::<Result<_, MarrowError>>()?)
